@@ -67,13 +67,134 @@ func acceptingEdges(fn *ssa.Function, acc acceptFn) map[edge]bool {
 // guarded reports whether instruction target can only be reached through an accepting edge
 // (cut-set formulation: remove the accepting edges, the target's block must become
 // unreachable from the entry).  n is the number of accepting edges found.
+//
+// New helper functions are looked through in both directions: a target that lies inside a helper
+// is guarded if it is guarded inside the helper or if every call of the helper is guarded; and a
+// branch on the boolean result of a helper is accepting when the helper can return that truth
+// value only through accepting edges of its own (a predicate wrapper such as "authorized()").
 func guarded(fn *ssa.Function, target ssa.Instruction, acc acceptFn) (ok bool, n int) {
-	edges := acceptingEdges(fn, acc)
-	if len(edges) == 0 {
-		return false, 0
+	return guardedDepth(fn, target, acc, 0)
+}
+
+func guardedDepth(fn *ssa.Function, target ssa.Instruction, acc acceptFn, depth int) (bool, int) {
+	owner := target.Parent()
+	edges := acceptingEdgesDeep(owner, acc, depth)
+	if len(edges) > 0 {
+		if r := reachable(owner, edges); !r[target.Block()] {
+			return true, len(edges)
+		}
 	}
-	r := reachable(fn, edges)
-	return !r[target.Block()], len(edges)
+	if owner != fn && newHelpers[owner] && depth < 4 && len(helperSites[owner]) > 0 {
+		total := 0
+		for _, cs := range helperSites[owner] {
+			ok, n := guardedDepth(fn, cs, acc, depth+1)
+			if !ok {
+				return false, n
+			}
+			total += n
+		}
+		return true, total
+	}
+	return false, len(edges)
+}
+
+// acceptingEdgesDeep: the accepting edges of fn plus the edges of branches on the result of a
+// predicate wrapper - a function of the analysed packages whose boolean (or error) result takes
+// the value true (nil) only through accepting edges inside the wrapper.  Known wrappers such as
+// validateWritable() and new helpers such as an extracted authorized() are treated alike, so a
+// guard may be written inline or behind a wrapper.
+func acceptingEdgesDeep(fn *ssa.Function, acc acceptFn, depth int) map[edge]bool {
+	out := acceptingEdges(fn, acc)
+	if depth > 3 {
+		return out
+	}
+	for _, b := range fn.Blocks {
+		iff := lastIf(b)
+		if iff == nil {
+			continue
+		}
+		// the condition as "call result is GOOD" (true / nil) with a polarity
+		cond, goodOnTrue := iff.Cond, true
+		for {
+			if u, ok := cond.(*ssa.UnOp); ok && u.Op == token.NOT {
+				cond, goodOnTrue = u.X, !goodOnTrue
+				continue
+			}
+			break
+		}
+		var resv ssa.Value = cond
+		if bo, ok := cond.(*ssa.BinOp); ok && (bo.Op == token.EQL || bo.Op == token.NEQ) && (isNilConst(bo.X) || isNilConst(bo.Y)) {
+			resv = bo.X
+			if isNilConst(bo.X) {
+				resv = bo.Y
+			}
+			if bo.Op == token.NEQ { // err != nil : true means BAD
+				goodOnTrue = !goodOnTrue
+			}
+		}
+		// the value itself (not looked through): a call result, possibly via a single-assignment local
+		call, idx := callOf(resv)
+		if call == nil {
+			if u, ok := resv.(*ssa.UnOp); ok && u.Op == token.MUL {
+				if al, ok := u.X.(*ssa.Alloc); ok {
+					if sts := storesTo(al); len(sts) == 1 {
+						call, idx = callOf(sts[0].Val)
+					}
+				}
+			}
+		}
+		if call == nil {
+			continue
+		}
+		h := call.Common().StaticCallee()
+		if h == nil || h.Blocks == nil || h == fn || h.Pkg == nil || !(strings.HasPrefix(h.Pkg.Pkg.Path(), libPath)) {
+			continue
+		}
+		inner := acceptingEdgesDeep(h, acc, depth+1)
+		if len(inner) == 0 {
+			continue
+		}
+		reach := reachable(h, inner)
+		goodGuarded := true // GOOD (true / nil) is returned only behind accepting edges
+		sawGood := false
+		for _, hb := range h.Blocks {
+			ret, ok := hb.Instrs[len(hb.Instrs)-1].(*ssa.Return)
+			if !ok || idx >= len(ret.Results) {
+				continue
+			}
+			v := unspill(ret, ret.Results[idx])
+			good, known := false, false
+			if k, ok := v.(*ssa.Const); ok {
+				known = true
+				good = k.Value == nil || k.Value.ExactString() == "true"
+				if k.Value != nil && k.Value.ExactString() != "true" && k.Value.ExactString() != "false" {
+					known = false
+				}
+			} else if isErrorType(v.Type()) {
+				// a constructed error is non-nil
+				if _, isMk := v.(*ssa.MakeInterface); isMk {
+					known, good = true, false
+				} else if c3, _ := callOf(v); c3 != nil && (strings.HasPrefix(callee(c3), "errors.") || strings.HasPrefix(callee(c3), "fmt.Errorf") || strings.Contains(callee(c3), "pkg/errors")) {
+					known, good = true, false
+				}
+			}
+			if good {
+				sawGood = true
+			}
+			if reach[hb] && (good || !known) {
+				goodGuarded = false
+			}
+		}
+		if !goodGuarded || !sawGood {
+			continue
+		}
+		if goodOnTrue {
+			out[edge{b, b.Succs[0]}] = true
+		} else {
+			out[edge{b, b.Succs[1]}] = true
+		}
+	}
+	return out
 }
 
 // cmp describes a comparison condition with NOT stripped: op applied to x,y; neg tells that the
@@ -170,6 +291,12 @@ func originsInto(v ssa.Value, set map[string]bool, seen map[ssa.Value]bool, dept
 		originsInto(x.X, set, seen, depth+1)
 	case *ssa.Extract:
 		if c, ok := x.Tuple.(*ssa.Call); ok {
+			if rs := helperResults(c, x.Index); rs != nil {
+				for _, r := range rs {
+					originsInto(r, set, seen, depth+1)
+				}
+				return
+			}
 			set[fmt.Sprintf("call:%s#%d", callee(c), x.Index)] = true
 			return
 		}
@@ -194,8 +321,20 @@ func originsInto(v ssa.Value, set map[string]bool, seen map[ssa.Value]bool, dept
 			}
 			return
 		}
+		if rs := helperResults(x, 0); rs != nil {
+			for _, r := range rs {
+				originsInto(r, set, seen, depth+1)
+			}
+			return
+		}
 		set[fmt.Sprintf("call:%s#0", name)] = true
 	case *ssa.Parameter:
+		if as := boundArgs(x); as != nil {
+			for _, a := range as {
+				originsInto(a, set, seen, depth+1)
+			}
+			return
+		}
 		set["param:"+x.Name()] = true
 	case *ssa.Const:
 		if x.Value == nil {
@@ -510,7 +649,31 @@ func leaves(v ssa.Value) []ssa.Value {
 			switch t := x.Tuple.(type) {
 			case *ssa.TypeAssert:
 				walk(t.X, depth+1)
+			case *ssa.Call:
+				if rs := helperResults(t, x.Index); rs != nil {
+					for _, r := range rs {
+						walk(r, depth+1)
+					}
+				} else {
+					out = append(out, v)
+				}
 			default:
+				out = append(out, v)
+			}
+		case *ssa.Call:
+			if rs := helperResults(x, 0); rs != nil {
+				for _, r := range rs {
+					walk(r, depth+1)
+				}
+			} else {
+				out = append(out, v)
+			}
+		case *ssa.Parameter:
+			if as := boundArgs(x); as != nil {
+				for _, a := range as {
+					walk(a, depth+1)
+				}
+			} else {
 				out = append(out, v)
 			}
 		case *ssa.UnOp:
